@@ -31,6 +31,7 @@ class Harness:
     outside = ()
     div_mode = 'fork'
     logic = None        # e.g. 'QF_BV' to use a specialised z3 solver
+    exact_const_sqrt = False   # math.sqrt(2) etc. as exact algebraic numbers
     timeout_ms = {'quick': 20000, 'thorough': 60000}
     max_paths = 200000
     unit_wall_s = {'quick': 240, 'thorough': 1500}
@@ -194,6 +195,7 @@ def _unit(args):
                                                dict) else h.timeout_ms
         wall = h.unit_wall_s[tier] if isinstance(h.unit_wall_s,
                                                  dict) else h.unit_wall_s
+        npfacade.EXACT_CONST_SQRT = bool(h.exact_const_sqrt)
         with npfacade.inject(*mods, names=names):
             try:
                 core.explore(lambda ctx: h.sym(ctx, cfg), timeout_ms=tmo,
